@@ -9,6 +9,7 @@ from ..core import FUNC, call_attr, calls_in, const, dotted, is_const, kwarg, no
 from .c01 import _fmt_in
 
 EXPLANATION = [
+    'C02.feed-once: outside PacketParser, a feed_data() call inside a loop is fed with data received in that iteration, never with a re-slice of a chunk already fed.',
     "C02.reset-first: in the server transports' new-client hooks only log calls and plain assignments precede parser.reset() (nothing that can raise: the event loop would log the failure and keep feeding a parser that was not reset).",
     'C02.external-reset: outside PacketParser itself, parser.reset() is called only where a server transport accepts a new client (connection_made / on_connection): no per-message reset.',
     'C02.delivery-order: no transport function that hands packets to a sink sorts, reverses or otherwise reorders them.',
@@ -454,7 +455,40 @@ def reset_first(ctx):
     R.check(n >= 3, rule, 'bumble.transport | new-client hooks that reset the parser', f'{n}', f'only {n} found')
 
 
+def feed_once(ctx):
+    """Every received chunk is fed to the push parser exactly once.  A feed_data() call inside a loop is fed with data
+    received in that iteration (bound from an await / a receive call in the loop body), never with a re-slice of a chunk
+    that has already been fed (the parser stops at the offending byte, not at offset 0 of the chunk: feeding `data[1:]`
+    again replays bytes it has already consumed)."""
+    R, p = ctx.r, ctx.p
+    rule = 'C02.feed-once'
+    n = 0
+    for mn, m in sorted(p.modules.items()):
+        if not mn.startswith('bumble.transport'):
+            continue
+        for fn in [x for x in ast.walk(m.tree) if isinstance(x, FUNC)]:
+            if p.qual_of(fn).startswith('bumble.transport.common.PacketParser.'):
+                continue
+            for c in [x for x in walk_local(fn) if isinstance(x, ast.Call) and call_attr(x) == 'feed_data']:
+                n += 1
+                loop = getattr(c, '_parent', None)
+                while loop is not None and loop is not fn and not isinstance(loop, (ast.While, ast.For, ast.AsyncFor)):
+                    loop = getattr(loop, '_parent', None)
+                if loop is None or loop is fn:
+                    continue
+                arg = c.args[0] if c.args else None
+                ok = False
+                if isinstance(loop, (ast.For, ast.AsyncFor)) and isinstance(arg, ast.Name) and any(isinstance(x, ast.Name) and x.id == arg.id for x in ast.walk(loop.target)):
+                    ok = True
+                if isinstance(arg, ast.Name):
+                    defs_ = [s_ for s_ in ast.walk(loop) if isinstance(s_, ast.Assign) and any(isinstance(t, ast.Name) and t.id == arg.id for t in s_.targets)]
+                    ok = ok or (bool(defs_) and all(isinstance(d.value, ast.Await) or (isinstance(d.value, ast.Call) and not any(isinstance(x, ast.Name) and x.id == arg.id for x in ast.walk(d.value))) for d in defs_))
+                R.check(ok, rule, f'{p.qual_of(fn)} | feed_data in a loop', 'fed with what was received in that iteration', f'{fn.name} feeds `{norm(arg) if arg is not None else ""}` to the parser in a loop without receiving new data: bytes the parser has already consumed are framed again (packets delivered twice, bogus packets out of shifted bytes)', f'{m.rel}:{c.lineno}')
+    R.check(n >= 4, rule, 'bumble.transport | feed_data call sites', f'{n}', f'only {n} found')
+
+
 RULES = [
+    ('C02.feed-once', feed_once),
     ('C02.reset-first', reset_first),
     ('C02.external-reset', external_reset),
     ('C02.delivery-order', delivery_order),
